@@ -7,6 +7,7 @@ CONSTANTS
   MaxKeys = 7
   EmitEdges = FALSE
   EmitOneIn = 1
+  EmitExact = FALSE
   WithReads = TRUE
   AppendOnly = FALSE
 VIEW View
